@@ -13,6 +13,9 @@ from .absint import INT, NULL, TOP
 from .facts import AnalysisBroken
 
 
+CALLBACK_DRIVERS = {"nftw", "ftw"}
+
+
 class Registry:
     """Functions stored in struct fields of constant initialisers, and the
     indirect call sites through those fields."""
@@ -71,6 +74,12 @@ class Registry:
                     out.append((f, i))
         for rf in self.fields_of.get(g.name, ()):
             out.extend(self.sites.get(rf, ()))
+        # callbacks handed to an external driver whose result is the callback's result
+        # (nftw stops and returns the callback's non-zero value)
+        for (f, i, ai) in self.arg_passed.get(g.name, ()):
+            cal = f.nodes[i].get("callee")
+            if cal in CALLBACK_DRIVERS and self.prog.resolve(f, cal) is None:
+                out.append((f, i))
         return out
 
 
